@@ -120,6 +120,8 @@ Definition std_step (s os : list byte) (x : op) : option (list byte * list byte 
   | OAppC cs => mut true (s ++ cs)
   | OAppIt p q => mut ((p <=? q) && (q <=? lo)) (s ++ take (q - p) (drop p os))
   | OSprintf x => mut true (take (cstrlen x) x)
+  (* std::string has no sprintf; a failing conversion is specified as "assign the empty string" *)
+  | OSprintfFail _ _ => mut true []
   | ORepFs p c => mut (p <=? ln) (std_replace s p c os)
   | ORepS p c x => mut (p <=? ln) (std_replace s p c x)
   | ORepFss p c p2 c2 => mut ((p <=? ln) && (p2 <=? lo)) (std_replace s p c (std_substr os p2 c2))
